@@ -326,7 +326,7 @@ func sentFields(s *ast.SendStmt) []string {
 	return out
 }
 
-var ruleA9 = &Rule{
+var ruleA9old = &Rule{
 	ID:    "A9",
 	Floor: 5,
 	Doc: "flush before reset: in writer/utils/unmarshal every call of a reset method (a method that replaces a row-model object held in a receiver field by a fresh one; other statements of the method do not matter) made while parsing (i.e. not the initial reset before the parser goroutine is started) is preceded in the same block by a send on the response channel " +
@@ -576,6 +576,8 @@ var ruleA8 = &Rule{
 		return obls
 	},
 }
+
+var _ = ruleA9old
 
 func init() { register(ruleA9, ruleA8) }
 
